@@ -117,6 +117,21 @@ class Textgrid:
         if tier.name in self.tierNames:
             raise errors.TierNameExistsError("Tier name already in tier")
 
+        # Report (and possibly raise) before anything is modified
+        minV = tier.minTimestamp
+        if self.minTimestamp is not None and minV < self.minTimestamp:
+            errorReporter(
+                errors.TextgridStateAutoModified,
+                f"Minimum timestamp in Textgrid changed from ({self.minTimestamp}) to ({minV})",
+            )
+
+        maxV = tier.maxTimestamp
+        if self.maxTimestamp is not None and maxV > self.maxTimestamp:
+            errorReporter(
+                errors.TextgridStateAutoModified,
+                f"Maximum timestamp in Textgrid changed from ({self.maxTimestamp}) to ({maxV})",
+            )
+
         if tierIndex is None:
             self._tierDict[tier.name] = tier
         else:  # Need to recreate the tierDict with the new order
@@ -129,21 +144,9 @@ class Textgrid:
                 newTierDict[tmpName] = self.getTier(tmpName)
             self._tierDict = newTierDict
 
-        minV = tier.minTimestamp
-        if self.minTimestamp is not None and minV < self.minTimestamp:
-            errorReporter(
-                errors.TextgridStateAutoModified,
-                f"Minimum timestamp in Textgrid changed from ({self.minTimestamp}) to ({minV})",
-            )
         if self.minTimestamp is None or minV < self.minTimestamp:
             self.minTimestamp = minV
 
-        maxV = tier.maxTimestamp
-        if self.maxTimestamp is not None and maxV > self.maxTimestamp:
-            errorReporter(
-                errors.TextgridStateAutoModified,
-                f"Maximum timestamp in Textgrid changed from ({self.maxTimestamp}) to ({maxV})",
-            )
         if self.maxTimestamp is None or maxV > self.maxTimestamp:
             self.maxTimestamp = maxV
 
@@ -511,7 +514,11 @@ class Textgrid:
         oldTier = self.getTier(oldName)
         tierIndex = self.tierNames.index(oldName)
         self.removeTier(oldName)
-        self.addTier(oldTier.new(newName, oldTier.entries), tierIndex)
+        try:
+            self.addTier(oldTier.new(newName, oldTier.entries), tierIndex)
+        except Exception:
+            self.addTier(oldTier, tierIndex, constants.ErrorReportingMode.SILENCE)
+            raise
 
     def removeTier(self, name: str) -> textgrid_tier.TextgridTier:
         return self._tierDict.pop(name)
@@ -523,8 +530,12 @@ class Textgrid:
         reportingMode: Literal["silence", "warning", "error"] = "warning",
     ) -> None:
         tierIndex = self.tierNames.index(name)
-        self.removeTier(name)
-        self.addTier(newTier, tierIndex, reportingMode)
+        oldTier = self.removeTier(name)
+        try:
+            self.addTier(newTier, tierIndex, reportingMode)
+        except Exception:
+            self.addTier(oldTier, tierIndex, constants.ErrorReportingMode.SILENCE)
+            raise
 
     def validate(
         self, reportingMode: Literal["silence", "warning", "error"] = "warning"
